@@ -195,6 +195,35 @@ func genC14(tier string, seed int64) (*Family, error) {
 `, n, d.tagCall, d.plainCall, d.id != "Mix"))
 		}
 	}
+	// thirteen rules with tied saliences (enough for an unstable sort to show), tag never set: the same
+	// builder and names give the very same order with and without a tag
+	for _, d := range []struct{ id, tagCall, plainCall string }{
+		{"Selected", "eng.ExecuteSelectedRulesWithControlAndStopTag(rb, b, stag, names)", "eng.ExecuteSelectedRulesWithControl(rb, b, names)"},
+		{"AsGiven", "eng.ExecuteSelectedRulesWithControlAndStopTagAsGivenSortedName(rb, b, stag, names)", "eng.ExecuteSelectedRulesWithControlAsGivenSortedName(rb, b, names)"},
+	} {
+		name := "H_DiffTies13" + d.id
+		add(name, "differential-ties:"+d.id, d.id+": 13 rules with tied saliences, tag never set, same order as the plain variant", fmt.Sprintf(`	n := 13
+	s := make([]int64, n)
+	var names []string
+	for i := range s {
+		s[i] = int64(i / 4)
+		names = append(names, "r"+strconv.Itoa(i))
+	}
+	b := vnd.Bool("b")
+	_ = b
+	stag := &engine.Stag{}
+	dc := newDC(allFalse(n))
+	rb := buildTextPlain(dc, rulesText(n, s))
+	eng := engine.NewGengine()
+	err := %s
+	tr1 := vnd.Trace()
+	err2 := %s
+	tr2 := vnd.Trace()[len(tr1):]
+	vnd.Reach("executed")
+	vnd.Assert(err == nil && err2 == nil && !stag.StopTag, "no failure, the tag stays unset")
+	sameRuns(tr1, tr2, n, true)
+`, d.plainCall, d.tagCall))
+	}
 	// a second call that is handed the same Stag object while it is still set: the tag counts from the start,
 	// so exactly the first rule of the order runs (the entry points test the tag after a rule, not before)
 	for _, d := range []struct{ id, call string }{
@@ -724,6 +753,54 @@ func H_local_from_injected_field() {
 }
 `)
 	fam.Instances = append(fam.Instances, Instance{Func: "H_local_from_injected_field", Stratum: "local-copy", Desc: "locals initialised from injected fields / elements are copies", Expect: []string{"executed"}})
+	b.WriteString(`
+// two executions of one rule overlap while the first is between evaluating an earlier and a later argument of
+// a call: each call receives the locals of its own execution
+func H_same_rule_twice_args() {
+	var mu sync.Mutex
+	next := int64(0)
+	var bad, calls int
+	secondDone := new(sync.WaitGroup)
+	secondDone.Add(1)
+	dc := newDC(nil)
+	dc.Add("id", func() int64 {
+		mu.Lock()
+		next++
+		v := next
+		mu.Unlock()
+		return v
+	})
+	dc.Add("gate", func(me int64) int64 {
+		if me == 1 {
+			secondDone.Wait() // the first execution waits here, its earlier argument already evaluated
+		}
+		return me
+	})
+	dc.Add("pair", func(a, b int64) int64 {
+		mu.Lock()
+		calls++
+		if a != b {
+			bad++
+		}
+		mu.Unlock()
+		vnd.Event("pair")
+		if a == 2 || b == 2 {
+			secondDone.Done()
+		}
+		return a
+	})
+	rb := buildText(dc, "rule \"r0\" begin\n me = id()\n seen = pair(me, gate(me))\n return seen\nend\n")
+	eng := engine.NewGengine()
+	err := eng.ExecuteDAGModel(rb, [][]string{{"r0", "r0"}})
+	vnd.Event("ret")
+	vnd.Quiesce()
+	vnd.Assert(err == nil, "both executions succeed")
+	vnd.Assert(calls == 2, "each execution makes its call")
+	vnd.Assert(bad == 0, "a call receives the arguments its own execution evaluated")
+	vnd.Reach("executed")
+}
+`)
+	fam.Instances = append(fam.Instances, Instance{Func: "H_same_rule_twice_args", Stratum: "same-rule-overlap", Desc: "two executions of one rule overlapping inside the argument evaluation of a call", Expect: []string{"executed"}, Nondet: true})
 	fam.Instances = append(fam.Instances, Instance{Func: "H_same_rule_twice_conc", Stratum: "same-rule-overlap", Desc: "two overlapping executions of one rule inside its conc block", Expect: []string{"executed"}},
 		Instance{Func: "H_function_local", Stratum: "function-local", Desc: "a function-valued local is private to its rule", Expect: []string{"executed"}})
 	fam.Instances = append(fam.Instances, Instance{Func: "H_after_fault", Stratum: "after-fault", Desc: "locals of a faulted execution do not survive", Expect: []string{"executed"}},
